@@ -1,0 +1,121 @@
+//! Verification hooks. This module only exists when the crate is built with
+//! `--cfg amiquip_verif`; it is not part of the public API of normal builds.
+//!
+//! Two things live here:
+//!
+//! * an event hook: instrumented points in the I/O thread and in the channel handles
+//!   call [`emit`] with an event name and a few scalar fields. A test harness installs
+//!   a callback with [`set_hook`]; the callback runs synchronously on the emitting
+//!   thread (so it may block that thread to control scheduling).
+//! * thin probes around crate-private sequential components so that a harness can
+//!   drive them directly.
+use std::sync::{Arc, RwLock};
+
+/// Callback type: event name plus `(field, value)` pairs.
+pub type Hook = Arc<dyn Fn(&'static str, &[(&'static str, i64)]) + Send + Sync>;
+
+static HOOK: RwLock<Option<Hook>> = RwLock::new(None);
+
+/// Install (or remove) the global event hook.
+pub fn set_hook(hook: Option<Hook>) {
+    *HOOK.write().unwrap_or_else(|e| e.into_inner()) = hook;
+}
+
+#[inline]
+pub(crate) fn emit(name: &'static str, fields: &[(&'static str, i64)]) {
+    let hook = HOOK.read().unwrap_or_else(|e| e.into_inner()).clone();
+    if let Some(hook) = hook {
+        hook(name, fields);
+    }
+}
+
+/// Token values as seen by the harness: channel ids are themselves; the I/O loop's
+/// internal tokens keep their numeric values (65536 stream, 65537 heartbeat,
+/// 65538 alloc-channel, 65539 set-blocked).
+pub(crate) fn emit_batch(events: &mio::Events) {
+    let fields: Vec<(&'static str, i64)> = events
+        .iter()
+        .map(|e| ("tok", e.token().0 as i64))
+        .collect();
+    emit("batch", &fields);
+}
+
+pub(crate) fn emit_event(event: &mio::Event) {
+    emit(
+        "ev",
+        &[
+            ("tok", event.token().0 as i64),
+            ("r", event.readiness().is_readable() as i64),
+            ("w", event.readiness().is_writable() as i64),
+        ],
+    );
+}
+
+/// Emitted just before an inbound frame is dispatched. `type`: 0 protocol header,
+/// 1 method, 2 content header, 3 body, 8 heartbeat.
+pub(crate) fn emit_frame(frame: &amq_protocol::frame::AMQPFrame) {
+    use amq_protocol::frame::AMQPFrame;
+    let (ty, ch, len) = match frame {
+        AMQPFrame::ProtocolHeader => (0, 0, 0),
+        AMQPFrame::Method(ch, _) => (1, *ch, 0),
+        AMQPFrame::Header(ch, _, header) => (2, *ch, header.body_size as i64),
+        AMQPFrame::Body(ch, body) => (3, *ch, body.len() as i64),
+        AMQPFrame::Heartbeat(ch) => (8, *ch, 0),
+    };
+    emit("frame", &[("type", ty), ("ch", i64::from(ch)), ("len", len)]);
+}
+
+pub use crate::frame_buffer::FrameBuffer;
+pub use crate::io_loop::verif_probes::{CollectorProbe, Collected, SlotsProbe};
+
+/// Client/server tuning triple: `(channel_max, frame_max, heartbeat)`.
+pub type TuneTriple = (u16, u32, u16);
+
+/// Runs the crate's tune negotiation for client options `client` against a server
+/// `Tune` carrying `server`.
+pub fn tune_ok(client: TuneTriple, server: TuneTriple) -> crate::Result<TuneTriple> {
+    use amq_protocol::protocol::connection::Tune;
+    let options = crate::ConnectionOptions::<crate::Auth>::default()
+        .channel_max(client.0)
+        .frame_max(client.1)
+        .heartbeat(client.2);
+    let tune_ok = options.make_tune_ok(Tune {
+        channel_max: server.0,
+        frame_max: server.1,
+        heartbeat: server.2,
+    })?;
+    Ok((tune_ok.channel_max, tune_ok.frame_max, tune_ok.heartbeat))
+}
+
+/// What an AMQP URL decodes to.
+#[derive(Debug, Clone, PartialEq)]
+pub struct DecodedUrl {
+    pub secure: bool,
+    pub host: String,
+    pub port: u16,
+    pub auth: crate::Auth,
+    pub virtual_host: String,
+    pub locale: String,
+    pub channel_max: u16,
+    pub frame_max: u32,
+    pub heartbeat: u16,
+    pub connection_timeout: Option<std::time::Duration>,
+}
+
+/// Runs the crate's URL handling (everything `Connection::*open*` does short of
+/// connecting) on `url`.
+pub fn decode_url(url: &str) -> crate::Result<DecodedUrl> {
+    let (secure, host, port, options) = crate::connection::verif_decode_url(url)?;
+    Ok(DecodedUrl {
+        secure,
+        host,
+        port,
+        auth: options.auth,
+        virtual_host: options.virtual_host,
+        locale: options.locale,
+        channel_max: options.channel_max,
+        frame_max: options.frame_max,
+        heartbeat: options.heartbeat,
+        connection_timeout: options.connection_timeout,
+    })
+}
